@@ -58,7 +58,7 @@ func (S) Info() scen.Info {
 			"reference model":      "abstract tree with expanded links + reference updater (replace / insert / delete / append / create-parents / transparent link crossing)",
 		},
 		QuickUnits: 4000, ThoroughUnits: 400000, QuickSecs: 50, ThoroughSecs: 1200,
-		ProbeKeys: []string{"probe.below_link", "probe.below_two_links", "probe.delete_map", "probe.insert_key", "probe.append", "probe.create_parents", "probe.identity", "probe.expected_error", "probe.walk_transform", "probe.fault_made_transform_fail", "probe.fault_survived", "probe.history_ge_3"},
+		ProbeKeys: []string{"probe.below_link", "probe.below_two_links", "probe.delete_map", "probe.insert_key", "probe.append", "probe.create_parents", "probe.identity", "probe.expected_error", "probe.walk_transform", "probe.walk_transform_selector_matched", "probe.int_backed_segment", "probe.fault_made_transform_fail", "probe.fault_survived", "probe.history_ge_3"},
 		EventsKey: "events",
 	}
 }
@@ -409,7 +409,7 @@ func safe(f func()) (pan string) {
 	return ""
 }
 
-var kindNames = []string{"replace", "delete", "identity", "insert-key", "append", "create-parents", "missing-parents-refused", "walk-transform", "delete-list-element"}
+var kindNames = []string{"replace", "delete", "identity", "insert-key", "append", "create-parents", "missing-parents-refused", "walk-transform", "delete-list-element", "walk-transform-selector"}
 
 func (S) RunTape(t *sim.Tape, st *sim.Stats, keepLog bool) *sim.Outcome {
 	o := &sim.Outcome{}
@@ -490,7 +490,7 @@ func (S) RunTape(t *sim.Tape, st *sim.Stats, keepLog bool) *sim.Outcome {
 				// ---- choose a transform against the current model ----
 				var ps []pinfo
 				allPaths(cl.exp, nil, 0, &ps)
-				kind := []int{0, 0, 0, 1, 2, 3, 4, 5, 6, 7, 8}[t.Choice(11, "x.kind")]
+				kind := []int{0, 0, 0, 1, 2, 3, 4, 5, 6, 7, 8, 9, 9}[t.Choice(13, "x.kind")]
 				var segs []string
 				act := action{}
 				repl := func() *model.V {
@@ -585,7 +585,7 @@ func (S) RunTape(t *sim.Tape, st *sim.Stats, keepLog bool) *sim.Outcome {
 					ok = found
 					segs = append(append([]string(nil), p.segs...), "np1", "leaf")
 					act.repl = repl()
-				case 7:
+				case 7, 9:
 					ok = !hasLinks(strip(cl.exp))
 				}
 				if !ok {
@@ -603,7 +603,56 @@ func (S) RunTape(t *sim.Tape, st *sim.Stats, keepLog bool) *sim.Outcome {
 				var want *model.V
 				var wantErr error
 				crossed := 0
-				if kind == 7 {
+				if kind == 9 {
+					// selector-driven transform with a seeded selector. The positions a selector targets are
+					// taken from the read-only matching walk of the same selector (same code, no transform):
+					// the transform must replace exactly the top-most matched positions and nothing else.
+					ssb := builder.NewSelectorSpecBuilder(basicnode.Prototype.Any)
+					var sel selector.Selector
+					selDesc := ""
+					for try := 0; try < 4 && sel == nil; try++ {
+						spec := gen.Selector(t, ssb, 0, false, true)
+						if cs, e := spec.Selector(); e == nil {
+							sel = cs
+							if sv, e2 := model.FromNode(spec.Node()); e2 == nil {
+								selDesc = sv.String()
+							}
+						}
+					}
+					if sel == nil {
+						continue
+					}
+					var matched [][]string
+					wpan := safe(func() {
+						err = traversal.Progress{Cfg: w.cfg}.WalkMatching(cl.root, sel, func(p traversal.Progress, n datamodel.Node) error {
+							var sg []string
+							for _, x := range p.Path.Segments() {
+								sg = append(sg, x.String())
+							}
+							matched = append(matched, sg)
+							return nil
+						})
+					})
+					if wpan != "" || err != nil || len(matched) > 40 {
+						continue // no reference positions: nothing to compare (selector semantics are C07/C10)
+					}
+					desc = fmt.Sprintf("walk-transform-selector(%d matches, selector %s)", len(matched), selDesc)
+					marker := model.StringV("«T»")
+					want = beforeRaw
+					for _, m := range matched {
+						want = replaceAt(want, m, marker)
+					}
+					pan = safe(func() {
+						res, err = traversal.Progress{Cfg: w.cfg}.WalkTransforming(cl.root, sel, func(_ traversal.Progress, n datamodel.Node) (datamodel.Node, error) {
+							s.Yield("callback")
+							return basicnode.NewString("«T»"), nil
+						})
+					})
+					st.Inc("probe.walk_transform_selector")
+					if len(matched) > 0 {
+						st.Inc("probe.walk_transform_selector_matched")
+					}
+				} else if kind == 7 {
 					// walking transform on a link-free root: every int n -> n+1, every string upper-cased
 					desc = "walk-transform"
 					want = mapV(beforeRaw, func(v *model.V) *model.V {
@@ -636,9 +685,28 @@ func (S) RunTape(t *sim.Tape, st *sim.Stats, keepLog bool) *sim.Outcome {
 					var seen *model.V
 					want, wantErr = refUpdate(before, segs, act, &crossed, &seen)
 					desc = fmt.Sprintf("%s@%s(links=%d,create=%v)", kindNames[kind], strings.Join(segs, "/"), crossed, act.create)
+					// the same path in one of its legal forms: string segments, int-backed segments
+					// where a segment is a number (what NewPath / list indices give), or re-parsed text
 					path := datamodel.Path{}
+					form := t.Choice(3, "x.pathform")
+					parseable := true
 					for _, sg := range segs {
-						path = path.AppendSegmentString(sg)
+						if sg == "" || strings.Contains(sg, "/") {
+							parseable = false
+						}
+					}
+					switch {
+					case form == 2 && parseable && len(segs) > 0:
+						path = datamodel.ParsePath(strings.Join(segs, "/"))
+					default:
+						for _, sg := range segs {
+							if ix, err := strconv.Atoi(sg); form == 1 && err == nil && ix >= 0 && strconv.Itoa(ix) == sg {
+								path = path.AppendSegmentInt(int64(ix))
+								st.Inc("probe.int_backed_segment")
+							} else {
+								path = path.AppendSegmentString(sg)
+							}
+						}
 					}
 					pan = safe(func() {
 						res, err = traversal.Progress{Cfg: w.cfg}.FocusedTransform(cl.root, path, func(_ traversal.Progress, prev datamodel.Node) (datamodel.Node, error) {
@@ -729,7 +797,7 @@ func (S) RunTape(t *sim.Tape, st *sim.Stats, keepLog bool) *sim.Outcome {
 				}
 				gotRaw := strip(got)
 				// off-path positions keep their links; blocks written are at most those on the path
-				if kind != 7 {
+				if kind != 7 && kind != 9 {
 					if msg := offPathUnchanged(beforeRaw, gotRaw, segs, w); msg != "" {
 						o.Fail("off-path-changed", sig, "%s: %s", desc, msg)
 					}
@@ -866,6 +934,32 @@ func showE(v *model.V, d int) string {
 		return sb.String() + "]"
 	}
 	return v.String()
+}
+
+// replaceAt replaces the node at a path of a link-free tree, unless an ancestor
+// was already replaced (then the path no longer exists: the top-most match wins).
+func replaceAt(v *model.V, segs []string, repl *model.V) *model.V {
+	if len(segs) == 0 {
+		return repl
+	}
+	c := *v
+	switch v.K {
+	case model.Map:
+		c.Vals = append([]*model.V(nil), v.Vals...)
+		for i, k := range v.Keys {
+			if k == segs[0] {
+				c.Vals[i] = replaceAt(v.Vals[i], segs[1:], repl)
+				return &c
+			}
+		}
+	case model.List:
+		c.Vals = append([]*model.V(nil), v.Vals...)
+		if ix, err := strconv.Atoi(segs[0]); err == nil && ix >= 0 && ix < len(v.Vals) {
+			c.Vals[ix] = replaceAt(v.Vals[ix], segs[1:], repl)
+			return &c
+		}
+	}
+	return v
 }
 
 // mapV rewrites scalars of a link-free tree.
